@@ -103,6 +103,12 @@ def cases(tier, rng, schema, feats):
     for k in range(0, 6):
         for seq in itertools.product(range(3), repeat=k):
             add("dec2", _c14.mc([alpha[0]], [falpha[j] for j in seq]).hex(), tag="seq")
+    # the text-boundary corpus of C13 (every class of character at every alignment to the 64 / 128 byte limits): the string helpers
+    # contain an unchecked unwrap and slice indexing
+    from . import c13 as _c13
+    for line in _c13.cases(tier, rng.fork("c13"), schema, feats):
+        f = line.split("\t")
+        add(f[1], *f[2:], tag="txt")
     return out
 
 
